@@ -116,6 +116,10 @@ class GridFlow(WidgetWrap[Pile], WidgetContainerMixin, WidgetContainerListConten
     def __len__(self) -> int:
         return len(self._contents)
 
+    def selectable(self) -> bool:
+        """Return True when any cell is selectable (the display widget is only rebuilt on render)."""
+        return any(w.selectable() for w, _options in self._contents)
+
     def _invalidate(self) -> None:
         self._cache_maxcol = None
         super()._invalidate()
